@@ -23,9 +23,10 @@ GENERATORS = ["accumulate", "batched", "Chain.from_iterable", "combinations", "c
               "zip_longest"]
 INFINITE = {"count"}
 # "every element produced has passed a checkpoint since the previous one" needs value reasoning in two functions, which the
-# path analysis cannot do (the only abstract paths that violate it are infeasible): batched (`for _ in range(n)` runs at least
-# once because n >= 1 was validated at entry), zip_longest (the inner `for` always meets an active iterator while num_active > 0)
-SINCE_EXEMPT = {"batched", "zip_longest"}
+# path analysis cannot do (the only abstract paths that violate it are infeasible): zip_longest (the inner `for` always meets an
+# active iterator while num_active > 0). (`batched` needed the same exemption until the CFG kept the first arrival at a
+# `for _ in range(n)` apart: with n >= 1 validated at entry the zero-iteration exit is pruned.)
+SINCE_EXEMPT = {"zip_longest"}
 
 
 def _real_body(fn):
